@@ -77,6 +77,18 @@ CHECKS = {
         "assumptions": ["slice model in c06list is correct", "rapid v1.3.0; go1.26.8"],
         "jobs": [{"pkg": "c06list", "kinds": ["list"], "scale_thorough": 10, "shards_thorough": 16}],
     },
+    "C15": {
+        "level": "exploration",
+        "level_text": ("Generated container state x iterator position x mid-iteration operation(s) for Deque, Heap and PriorityQueue iterators, judged by a snapshot-or-panic oracle: "
+                       "everything returned is a prefix of the contents at Iterate() or at the first Next, exhaustion only after a whole snapshot, a panic only after some mutating call, and a mandatory panic "
+                       "on the first Next after an element was added/removed once iteration is under way"),
+        "level_note": "Trusts the oracle in c15snap; Grow/Shrink/Set/Update-of-present are treated leniently (either a correct continuation or a panic is accepted), as the property does.",
+        "technique": "property-based testing (rapid) with a snapshot-prefix-or-panic oracle",
+        "rule": ("kinds deque-iter/heap-iter/queue-iter: generated setup (wrapped/full/exactly-fitting/single/empty states), optional op before the first Next, J Next calls, 0-3 mid-iteration ops, then Next until end or panic. "
+                 "non-trivial = 0 < J < len (iterator strictly inside the snapshot) and at least one mid op that was not a no-op; distinct = distinct plan JSON"),
+        "assumptions": ["oracle in c15snap", "rapid v1.3.0; go1.26.8"],
+        "jobs": [{"pkg": "c15snap", "kinds": ["deque-iter", "heap-iter", "queue-iter"], "scale_thorough": 10, "shards_thorough": 16}],
+    },
     "C04": {
         "level": "exploration",
         "level_text": ("Model-based property testing: thousands of generated operation histories (macro-ops reach wrapped, full, "
